@@ -99,6 +99,20 @@ func concObserver(kind string, op *fstxn.FsTxn, arg uint64) {
 			runtime.Gosched()
 		}
 	}
+	if c.yield > 0 && (kind == "commit-end" || kind == "abort-end") {
+		// the transaction is over and its locks are free: let the other clients run whole
+		// operations before this handler builds its reply — whatever it still reads of an inode
+		// now is unprotected, and a reply that shows a later operation's effect is not explained
+		// by the commit order
+		sizeOp := strings.HasPrefix(c.s.curDesc, "setattr") || strings.HasPrefix(c.s.curDesc, "write")
+		if sizeOp || c.s.r.Intn(100) < c.yield {
+			if len(c.s.cur) > 0 {
+				hotHandle.Store(append([]byte(nil), c.s.cur[0]...))
+			}
+			time.Sleep(300 * time.Microsecond)
+			hotHandle.Store([]byte(nil))
+		}
+	}
 }
 
 // lockTrace renders the events of one operation, transaction by transaction:
@@ -240,6 +254,7 @@ func cmdConc(fs *flag.FlagSet, args []string) {
 			rootfh := fh.MkRootFh3().Data
 			s.objs[hx(rootfh)] = &objInfo{fh: rootfh, kind: 2}
 			s.dirs[hx(rootfh)] = &dirInfo{names: map[string][]byte{}}
+			s.chaseHot = *yield > 0
 			clients[i] = &concClient{id: i, s: s, yield: *yield}
 		}
 		runOp := func(c *concClient, f func()) {
@@ -395,6 +410,23 @@ func (c *concClient) concOp() {
 	}
 	name := func() string { return s.pool[r.Intn(len(s.pool))] }
 	file := func() []byte { return s.pickHandle(1) }
+	if s.chaseHot {
+		// another client's transaction on this file has just ended and its handler has not
+		// returned yet: change the file now
+		if h, _ := hotHandle.Load().([]byte); len(h) > 0 && r.Chance(2, 3) {
+			if o, ok := s.objs[hx(h)]; ok && o.kind == 1 {
+				f := append([]byte(nil), h...)
+				if r.Chance(1, 2) {
+					sz := uint64([]int{0, 7, 300, 4097, 8192, 20000}[r.Intn(6)])
+					s.opSetattr(f, &sz, timeHow{}, timeHow{})
+				} else {
+					n := []int{9, 100, 4096}[r.Intn(3)]
+					s.opWrite(f, uint64(r.Intn(4))*5000, uint32(n), uint32(r.Intn(3)), s.mkData(n))
+				}
+				return
+			}
+		}
+	}
 	switch k := r.Intn(100); {
 	case k < 14:
 		d, n := dir(), name()
